@@ -38,7 +38,8 @@ def run(ctx):
     res = C.judge_groups(ctx, groups, clause_filter, rnd=rnd,
                          tags_of=lambda g, e, v: {'cfg': g.name, 'out': e['out']})
     usr = sum(1 for g, e, v in res if (e['pre'].get('cpsr') or g.header()['h']['base']['cpsr'])[1] & 31 == 16)
-    ctx.exhaustive = True
+    ctx.exhaustive = False
+    ctx.extra['exhaustive_subspaces'] = ['all 2^16 16-bit Thumb words from User mode (x IT positions per tier)']
     ctx.extra['user_mode_events'] = usr
     ctx.extra['rule'] = ('all 2^16 16-bit Thumb words and random/pattern ARM and Thumb-32 words and random programs, '
                          'started in User mode, secure and non-secure, MPU off/on; clause "confine" of Trace_Step')
